@@ -62,7 +62,7 @@ impl Property for C11 {
         "families: circle pairs parameterised by relative position (far, just outside, exactly externally tangent via 3-4-5 lattice constructions, crossing, exactly internally tangent, nested, concentric, equal radii) posed by exact quarter turns + lattice shifts or a general isometry (centres up to 1e3); external points at d/r = 1 + 10^[-6,3]; lines at any distance incl. exactly tangent (axis-parallel on a lattice, and in a general direction to within a few ulps), unit and non-unit directions, segments; curve x circle; point triples in general position and exactly collinear; arcs with any centre, start angle in +-4pi and sweep in [-2pi, 2pi] incl. +-2pi, multiples of pi/2 and +-1e-9. Oracle: the defining constraints (on both objects, count by configuration, perpendicular radius, documented left/right order, bounding box contains and touches). Non-trivial: neither circle centred at the origin and r/d farther than 0.05 from 1/sqrt 2. Distinct = distinct canonical JSON."
     }
     fn cases(t: Tier) -> u32 {
-        t.pick(2_000_000, 50_000_000)
+        t.pick(6_000_000, 50_000_000)
     }
     fn expected_labels() -> Vec<&'static str> {
         vec!["pair_far", "pair_just_outside", "pair_touch_exact", "pair_crossing", "pair_inner_touch_exact", "pair_nested", "pair_concentric", "tangent_point", "line_0", "line_1", "line_2", "line_tangent_generic", "segment", "curve_circle", "project", "arc3", "arc3_collinear", "arc_box", "outer_tangents"]
@@ -503,12 +503,27 @@ fn arc3(p0: &P2, p1: &P2, p2: &P2, collinear: bool, sc: f64) -> Verdict {
         b = a + chord * 0.5 + n * (0.3 * chord.norm());
     }
     let area2 = cross(&(b - a), &(c - a));
+    // general position means that no angle of the triangle is (nearly) zero: a needle with two vertices close together
+    // has a large angle at one of them and a vanishing one at the far vertex, and the library judges collinearity by
+    // the sine at the middle point.  Between 1e-6 (its threshold) and 2e-3 the answer is left open.
+    let min_sine = {
+        let (ab, bc, ca) = ((b - a).norm(), (c - b).norm(), (a - c).norm());
+        let m = ab.max(bc).max(ca);
+        let second = if m == ab { bc.max(ca) } else if m == bc { ab.max(ca) } else { ab.max(bc) };
+        area2.abs() / (m * second).max(1e-300)
+    };
+    if min_sine < 2e-3 {
+        return Verdict::Discard("needle triangle: neither collinear nor in general position");
+    }
     let circ = match Circle2::from_3_points(a, b, c) {
         Ok(x) => x,
         Err(e) => return Verdict::fail("C11/from_3_points/general_position_rejected", format!("{e}: {:?} {:?} {:?}", a, b, c)),
     };
-    let cond = (scale * scale / area2.abs()).max(1.0);
-    let tol = 1e-9 * (circ.r() + scale) * cond;
+    // conditioning depends on the shape of the triangle only (the construction is exact under translation); the
+    // coordinates themselves carry a rounding error of a few ulps of their magnitude
+    let size = (b - a).norm().max((c - b).norm()).max((a - c).norm());
+    let cond = (size * size / area2.abs()).max(1.0);
+    let tol = (1e-9 * (circ.r() + size) + 64.0 * ulp(scale)) * cond * cond;
     for (i, p) in [a, b, c].iter().enumerate() {
         ensure!(circ.distance_to(p).abs() <= tol, "C11/from_3_points/not_through_point", "point {i} is {:e} off the circle (r={:e})", circ.distance_to(p), circ.r());
     }
